@@ -226,7 +226,9 @@ func (miscArea) Gen(r *hx.Rng, n int, _ string, emit func(string)) {
 // fltmArea: the float branch against the Lean model (Model/FixedTextFloat.lean):
 //   pf <bits> <hex text>        strconv.ParseFloat(text, bits) of a decimal text     -> bit pattern
 //   ff <bits> <hex bit pattern> strconv.FormatFloat(x, 'f', -1, bits)                -> text
-//   cfm <ty> <D> <raw> <bits>   As and CheckedAs to float32 / float64                -> bit patterns / nofit
+//   cfm <ty> <D> <raw> <bits>   As and CheckedAs to float32 / float64                -> bit patterns / nofit / wrong-error
+//   pfx <hex text>              strconv.ParseFloat(text, 64) of ANY text (special values, exponent, hexadecimal and
+//                               underscore grammars: Model/FixedTextExp.lean `parseFloatAny`)  -> bit pattern / err
 
 type fltmArea struct{}
 
@@ -244,6 +246,26 @@ func (fltmArea) Run(line string) string {
 		bits := hx.Atoi(f[1])
 		v, _ := strconv.ParseFloat(string(hx.UnHex(f[2])), bits) //nolint:errcheck // the value is what CheckedAs uses
 		return bitsHex(v, bits)
+	case len(f) == 2 && f[0] == "pfx":
+		text := string(hx.UnHex(f[1]))
+		body := strings.TrimLeft(text, "+-")
+		if len(text)-len(body) > 1 {
+			body = text[1:]
+		}
+		if !isExp(text) && (body == "" || !strings.ContainsRune("iInN", rune(body[0]))) {
+			return "n/a" // plain decimals without an exponent belong to op `pf`
+		}
+		if isExp(text) && longMantissa(text) {
+			return "long"
+		}
+		v, err := strconv.ParseFloat(text, 64)
+		if err != nil {
+			return "err"
+		}
+		if math.IsNaN(v) {
+			return "7ff8000000000000" // any NaN: the model has one
+		}
+		return bitsHex(v, 64)
 	case len(f) == 3 && f[0] == "ff":
 		bits := hx.Atoi(f[1])
 		u, err := strconv.ParseUint(f[2], 16, 64)
@@ -270,6 +292,9 @@ func (fltmArea) Run(line string) string {
 		out := bitsHex(got.as, got.bits)
 		if got.ok {
 			return out + " ok:" + bitsHex(got.v, got.bits)
+		}
+		if got.wrongErr {
+			return out + " wrong-error"
 		}
 		return out + " nofit"
 	}
@@ -314,6 +339,26 @@ func (fltmArea) Gen(r *hx.Rng, n int, _ string, emit func(string)) {
 				}
 				emit("ff 64 " + strconv.FormatUint(u, 16))
 			}
+		case 2: // ParseFloat of any text: the special values and their neighbours, and the texts of the exponent branch
+			var s string
+			if r.Bool() {
+				s = hx.Pick(r, []string{"nan", "NaN", "NAN", "nAn", "+nan", "-nan", "nan ", "nane5", "na", "n", "nanx", "inf", "Inf", "INF", "+inf", "-inf",
+					"-Inf", "+INF", "infinity", "Infinity", "INFINITY", "+Infinity", "-infinity", "iNfInItY", "infi", "infin", "infini", "infinit",
+					"infinityx", "infinity1", "-infinit", "+infi", "infe", "infe5", "-infE", "in", "i", "+i", "+", "-", "", "++inf", "+-inf", "inff", "inf_",
+					"1e999", "-1e999", "1e308", "1.8e308", "1e-999", "0x1p1024", "0x1p-1080", "1e", "e", "E5", ".e1", "1_0", "0x1p0", "0x", "0x_1p0", "1p5"})
+				if r.Chance(1, 4) { // random case
+					b := []byte(s)
+					for i := range b {
+						if r.Bool() && b[i] >= 'a' && b[i] <= 'z' {
+							b[i] -= 32
+						}
+					}
+					s = string(b)
+				}
+			} else {
+				s = genExpLit(r, 1+r.Intn(16))
+			}
+			emit("pfx " + hx.Hex([]byte(s)))
 		default:
 			emit(genFloatCase(r, "cfm"))
 		}
